@@ -370,6 +370,18 @@ def shards(tier, seed):
         rnd.shuffle(progs)
         progs = progs[:6000]
         k = 32
+    # always: shifts applied to composites that already contain shifted leaves (shifts accumulate)
+    L = lambda k: ("leaf", k)  # noqa: E731
+    progs = list(progs) + [
+        ("un", "prev_t", ("bin", "*", L("X"), L("Xp"))),
+        ("un", "prev_t", ("bin", "+", L("Xp"), L("D6"))),
+        ("un", "prev_t", ("bin", "-", ("bin", "*", L("X"), L("Xp")), L("a6"))),
+        ("un", "prev_t", ("un", "prev_t", ("bin", "*", L("X"), L("D6")))),
+        ("un", "prev_t", ("bin", "*", L("L"), L("Lp"))),
+        ("un", "prev_i", ("bin", "*", L("X"), L("Xi"))),
+        ("un", "prev_i", ("un", "prev_i", ("bin", "+", L("X"), L("D6")))),
+        ("bin", "-", ("un", "prev_t", ("bin", "*", L("X"), L("Xp"))), ("bin", "*", L("X"), L("Xp"))),
+    ]
     progs = [to_list(p) for p in progs if not _mixed_shift(p) and not _rounded_uf_argument(p)]
     return [{"progs": progs[i::k]} for i in range(k)]
 
